@@ -101,7 +101,7 @@ def main():
         if kind == 'exit': chk.violations.append({'key': 'C06:worker-loop-exits', 'text': 'worker loop can exit: %s' % (evs,), 'witness': {'kind': 'worker', 'trace': [list(e) for e in evs]}})
     # the job call must not be wrapped: a panicking task kills exactly its worker; check what a panic costs
     nq = 0
-    for (N, jobs) in ([(2, ['panic', 'instant', 'instant'])] if quick else [(2, ['panic', 'instant', 'instant']), (3, ['panic', 'panic', 'instant', 'rv', 'rv'])]):
+    for (N, jobs) in ([(2, ['panic', 'instant', 'instant'])] if quick else [(2, ['panic', 'instant', 'instant']), (3, ['panic', 'instant', 'rv', 'rv'])]):   # the rendezvous pair needs the two surviving workers
         K = len(jobs) * 6 + N + 1
         r, wit, dt = P.bmc(auto, N, jobs, K, 'stuck'); nq += 1
         chk.stats['queries'] += 1; chk.stats[r] += 1; chk.stats['solver_s'] += dt
